@@ -5,6 +5,10 @@ import random
 from luagen import Prog
 
 
+def _name(p, s):
+    return p.add("str", s=list(s.encode()), name=True)
+
+
 def _co(p, name):
     return p.field(p.id("coroutine"), name)
 
@@ -78,9 +82,33 @@ def script_program(rng, ncos=None, wrap_prob=0.25):
             elif c < 0.75:
                 # a yield below pcall cannot suspend the host function: an error at the yield, caught by that pcall; the
                 # coroutine goes on and its later yields work
-                inner = p.func([], p.block([p.local(["keep"], [p.str("kept")]), p.assign([p.id("kfn")], [p.func([], p.block([p.ret([p.id("keep")])]))]),
-                                            p.local(["r"], [p.call(_co(p, "yield"), vals())]), p.ret([p.str("not-reached"), p.id("r")])]))
-                ops.append(p.emit([p.str(tag + "-ypc"), p.call(p.id("pcall"), [inner]), p.call(p.id("kfn"), [])]))
+                form = rng.choice(["middle", "tail", "tail-deep", "xpcall-tail"])
+                if form == "middle":
+                    yielding = [p.local(["r"], [p.call(_co(p, "yield"), vals())]), p.ret([p.str("not-reached"), p.id("r")])]
+                elif form == "tail-deep":      # the yield is the tail call of a function that the protected function tail-calls
+                    yielding = [p.ret([p.call(p.paren(p.func([], p.block([p.ret([p.call(_co(p, "yield"), vals())])]))), [])])]
+                else:                          # a yield in tail position: the frame that would be suspended is already gone
+                    yielding = [p.ret([p.call(_co(p, "yield"), vals())])]
+                inner = p.func([], p.block([p.local(["keep"], [p.str("kept")]), p.assign([p.id("kfn")], [p.func([], p.block([p.ret([p.id("keep")])]))])] + yielding))
+                if form == "xpcall-tail":
+                    ops.append(p.emit([p.str(tag + "-ypc"), p.call(p.id("select"), [p.num(1), p.call(p.id("xpcall"), [inner, p.func(["m"], p.block([p.ret([p.str("handled")])]))])]), p.call(p.id("kfn"), [])]))
+                else:
+                    ops.append(p.emit([p.str(tag + "-ypc"), p.call(p.id("pcall"), [inner]), p.call(p.id("kfn"), [])]))
+            elif c < 0.78:
+                # an error raised below one more host boundary than the pcall that catches it (a metamethod handler, a
+                # for-in iterator, a nested pcall): the calls it went through are gone, later yields of this coroutine work
+                via = rng.choice(["index", "add", "iter", "nested"])
+                boom = lambda: p.callstat(p.call(p.id("error"), [p.str("below-" + via)]))
+                if via == "index":
+                    body = [p.ret([p.field(p.call(p.id("setmetatable"), [p.table([]), p.table([("k", _name(p, "__index"), p.func(["t", "k"], p.block([boom()])))])]), "missing")])]
+                elif via == "add":
+                    body = [p.ret([p.bin("+", p.call(p.id("setmetatable"), [p.table([]), p.table([("k", _name(p, "__add"), p.func(["a", "b"], p.block([boom()])))])]), p.num(1))])]
+                elif via == "iter":
+                    body = [p.forin(["q"], [p.func([], p.block([boom()]))], p.block([p.emit([p.str("not-reached")])]))]
+                else:
+                    body = [p.ret([p.call(p.id("pcall"), [p.func([], p.block([p.callstat(p.call(p.id("pcall"), [p.id("error"), p.str("innermost")])), boom()]))])])]
+                ops.append(p.emit([p.str(tag + "-ebb"), p.call(p.id("select"), [p.num(1), p.call(p.id("pcall"), [p.func([], p.block(body))])])]))
+                ops.append(p.emit([p.str(tag + "-ebb-yield"), p.call(_co(p, "yield"), vals())]))
             elif c < 0.83:
                 x = "x%d" % j
                 ops.append(p.fornum("i", p.num(1), p.num(2), 0, p.block([
